@@ -43,6 +43,17 @@ run)
           KINDS=$(echo "$OUT" | grep '^  kind=' | sed 's/ ::.*//' | sed 's/^  //' | tr '\n' ';')
           echo "$ID: check $PROP $TIER exit=$RC $KINDS"
           [ $RC -eq 2 ] && echo "$OUT" | tail -5
+          python3 - "$D/meta.json" "$PROP" "$RC" "$KINDS" "$TIER" <<'PY'
+import json,sys
+p,prop,rc,kinds,tier=sys.argv[1:6]
+m=json.load(open(p))
+rec={"check":f"./check {prop} {tier}","exit":int(rc),"violation_classes":[k for k in kinds.split(';') if k],"where":"scratch lane (tools/lanes.sh): a git worktree of /repo with the patch applied and a copy of /verif/sim built against it"}
+if prop==m["breaks_property"]:
+    m["detected_by"]=rec
+else:
+    m.setdefault("also_detected_by",{})[prop]=rec
+json.dump(m,open(p,"w"),indent=1)
+PY
         done
         git -C $L/$k/repo checkout -q -- .
         j=$((j+NL))
